@@ -382,8 +382,14 @@ def make_jobs(ctx, rng, per_pair):
 def run_jobs(jobs):
     import multiprocessing
     mp = multiprocessing.get_context('fork')
-    with mp.Pool(min(len(jobs), max(2, (os.cpu_count() or 4) - 2), 14)) as pool:
-        return pool.map(run_config, jobs, chunksize=1)
+    # at most 4 worker processes (shared machine); heaviest configurations (largest m) first
+    order = sorted(range(len(jobs)), key=lambda i: (-jobs[i][0], -jobs[i][1]))
+    with mp.Pool(min(len(jobs), 4)) as pool:
+        res = pool.map(run_config, [jobs[i] for i in order], chunksize=1)
+    out = [None] * len(jobs)
+    for i, r in zip(order, res):
+        out[i] = r
+    return out
 
 
 def check_case(ctx, cfg, seed, case, ent):
